@@ -2,6 +2,8 @@ import St4sd.Model.Repl
 import St4sd.Model.ReplVars
 import St4sd.Model.ReplConf
 import St4sd.Lemmas.C03Text
+import St4sd.Model.ReplOver
+import St4sd.Lemmas.C03Over
 /-!
 # C03 — Replication expands a workflow without changing its dataflow
 
@@ -29,6 +31,12 @@ topological order, by induction over that order (`go_inv`).
 * `run_orig`, `reparametrised_equals_fresh`, `history_irrelevant`, `user_variable_chain` — the document a
   configuration object replicates after any history of (re-)parametrisations is the loaded document patched
   with the user variables of the CURRENT parametrisation (the same as a freshly constructed configuration);
+* `platform_chain`, `layerRaw_none`, `layerT_map`, `override_block_consistent`, `goBlocks_readback`,
+  `readback_copy_knows_its_index`, `pieceBase_text` — replication on a non-default platform (`Model/ReplOver.lean`):
+  the scope chain is own > platform stage > platform global > default stage > default global; the kept
+  `override.<platform>` block of every emitted component is rewritten consistently with the component, so what
+  is read back through the platform layer (references, command line, every variable, `replica = i`) is exactly
+  the rewritten component;
 * `text_refines_graph_partial` — for the repaired code the textual rewriting of a `references` entry of a
   copy equals the rendering of the graph-level rewriting, under two decidable side conditions (see there).
 -/
@@ -943,5 +951,119 @@ example : (match (run (construct { g := gEx, st := fun _ => [], wf := [rawCalibr
        (⟨[("numberPoints".toList, "3".toList)], []⟩, false)]).concrete with
     | .replicated (.ok out) => out.map fun o => String.ofList o.name
     | _ => []) = ["calibrate", "simulate0", "simulate1", "simulate2"] := by decide
+
+/-! ## non-default platforms: platform scopes and the `override.<platform>` block -/
+
+/-- **Scope chain on a platform**: a name visible to a component on platform `p` has the value the component
+gives it (its own variables, `override.p.variables` included), else the value of `p`'s section of its stage,
+else the one of `p`'s global section, else the one of the default section of its stage, else the default
+global one. -/
+theorem platform_chain (dg pg ds ps own : Vars) (k : S) :
+    lookup (visible (platGlobal dg pg) (platStage ds ps pg) own) k =
+      (lookup own k).or ((lookup ps k).or ((lookup pg k).or ((lookup ds k).or (lookup dg k)))) := by
+  simp only [visible_lookup, platGlobal, platStage, lookup_override, lookup_filter_undefined]
+  cases lookup pg k <;> cases lookup own k <;> cases lookup ps k <;> cases lookup ds k <;> simp
+
+/-- on a platform for which a component has no override block the component is handed over as it is -/
+theorem layerRaw_none (r : Raw) : layerRaw r none = r := rfl
+
+/-- the variables `apply_replicate` sees for a component with an override block: the block's over its own -/
+theorem layerRaw_vars (r : Raw) (o : Over) (k : S) :
+    lookup (layerRaw r (some o)).vars k = (lookup o.vars k).or (lookup r.vars k) := by
+  simp [layerRaw, lookup_override]
+
+/-- layering commutes with ANY rewriting of the strings (`replace_strings` walks the component and the block
+with the same function) -/
+theorem layerT_map (f : S → S) (base over : TBlock) :
+    layerT (base.map f) (over.map f) = (layerT base over).map f := by
+  cases h1 : over.refs <;> cases h2 : over.args <;> simp [layerT, TBlock.map, override, h1, h2]
+
+/-- **The override layer is rewritten consistently with the component.**  For a component whose effective
+fields are its own fields with the block `over` layered on top (what `instance(platform)` produces): every
+emitted component comes with exactly one kept block, and reading it back through the platform layer gives
+exactly the emitted component fields — copy `i` keeps consuming copy `i`, an aggregator keeps its split list
+of all copies, every variable (the injected `replica` included) resolves as in the component itself. -/
+theorem override_block_consistent (d : Done) (c : Comp) (base over : TBlock) (p : Option Nat) :
+    (pieceBase d c (layerT base over) p).length = (pieceOver d c over p).length ∧
+    ∀ x ∈ (pieceBase d c (layerT base over) p).zip (pieceOver d c over p), BlockEq (readBack x) x.1 := by
+  unfold pieceBase pieceOver
+  by_cases ha : c.agg = true
+  · simp only [ha, if_true, List.length_singleton, List.zip_cons_cons, List.zip_nil_right, List.mem_singleton,
+      true_and]
+    intro x hx
+    subst hx
+    exact readBack_layer_split _ base over
+  · simp only [ha, Bool.false_eq_true, if_false]
+    by_cases hn : 0 < p.getD 0
+    · simp only [hn, if_true, List.length_map, List.length_range, true_and]
+      intro x hx
+      rw [List.zip_map', List.mem_map] at hx
+      obtain ⟨i, _, rfl⟩ := hx
+      exact readBack_layer_replica _ i base over
+    · simp only [hn, if_false, List.length_singleton, List.zip_cons_cons, List.zip_nil_right, List.mem_singleton,
+        true_and]
+      intro x hx
+      subst hx
+      exact layerT_idem base over
+
+/-- the same over the whole pass: in the replicated FlowIR of a platform every component reads back, through
+its kept override block, as its own rewritten fields -/
+theorem goBlocks_readback (cs : List (Comp × TBlock × TBlock)) :
+    ∀ (d : Done) (out out' : List (TBlock × TBlock)),
+      goBlocks d out (cs.map fun x => (x.1, layerT x.2.1 x.2.2, x.2.2)) = some out' →
+      (∀ x ∈ out, BlockEq (readBack x) x.1) → ∀ x ∈ out', BlockEq (readBack x) x.1 := by
+  induction cs with
+  | nil =>
+    intro d out out' h h0
+    simp only [List.map_nil, goBlocks, Option.some.injEq] at h
+    subst h
+    exact h0
+  | cons e cs ih =>
+    intro d out out' h h0
+    obtain ⟨c, base, over⟩ := e
+    simp only [List.map_cons, goBlocks] at h
+    split at h
+    · rename_i p _
+      refine ih _ _ _ h ?_
+      intro x hx
+      rcases List.mem_append.mp hx with hx | hx
+      · exact h0 x hx
+      · exact (override_block_consistent d c base over p).2 x hx
+    · cases h
+
+/-- **Copy `i` knows its index on every platform**: whatever `override.<platform>.variables` defines for
+`replica`, what is read back for copy `i` is `i`. -/
+theorem readback_copy_knows_its_index (g : S → S) (i : Nat) (base over : TBlock) :
+    lookup (readBack (setReplica i ((layerT base over).map g), fixReplica i (over.map g))).vars replicaKey =
+      some (natToDigits i) := by
+  show lookup (layerT (setReplica i ((layerT base over).map g)) (fixReplica i (over.map g))).vars replicaKey = _
+  rw [(readBack_layer_replica g i base over).2.2 replicaKey]
+  simp [setReplica, copyVars_replica]
+
+/-- the `references` and the command line of `pieceBase` are those of `pieceText` (the text level the
+theorems above are about); `pieceBase` adds the rewriting of the variable VALUES -/
+theorem pieceBase_text (d : Done) (c : Comp) (args : S) (vs : Vars) (p : Option Nat) :
+    (pieceBase d c ⟨some (c.refs.map render), some args, vs⟩ p).map (fun b => (b.refs, b.args)) =
+      (pieceText d c args p).map (fun t => (some t.refs, some t.args)) := by
+  unfold pieceBase pieceText
+  by_cases ha : c.agg = true
+  · simp [ha, splitRefs, TBlock.map, List.flatMap_map]
+  · by_cases hn : 0 < p.getD 0
+    · simp [ha, hn, setReplica, TBlock.map, Function.comp_def]
+    · simp [ha, hn]
+
+/-- non-vacuity: on platform `hpc` the consumer restates its references (`A:ref BA:ref` instead of `A:ref`)
+and defines `replica: 7` in its override block; copy 1 reads back `stage0.A1:ref`, `BA:ref` and `replica = 1` -/
+example :
+    let base : TBlock := ⟨some ["A:ref".toList], some "A:ref".toList, []⟩
+    let over : TBlock := ⟨some ["A:ref".toList, "BA:ref".toList], none, [(replicaKey, "7".toList)]⟩
+    ((pieceBase dEx cEx (layerT base over) (some 2)).zip (pieceOver dEx cEx over (some 2))).map
+        (fun x => ((readBack x).refs.map (·.map String.ofList), (readBack x).args.map String.ofList,
+                   (lookup (readBack x).vars replicaKey).map String.ofList)) =
+      [(some ["stage0.A0:ref", "BA:ref"], some "stage0.A0:ref", some "0"),
+       (some ["stage0.A1:ref", "BA:ref"], some "stage0.A1:ref", some "1")] := by decide
+
+example : lookup (visible (platGlobal [("n".toList, "2".toList)] [("n".toList, "3".toList)])
+    (platStage [("n".toList, "5".toList)] [] [("n".toList, "3".toList)]) []) "n".toList = some "3".toList := by decide
 
 end St4sd.C03
